@@ -307,7 +307,10 @@ pub fn plan(property: &str, tier: &str) -> Option<CheckSpec> {
                 }
             }
             let mut g = GenCfg::base("C06-seq");
-            g.traces = vec![TraceOpt { trace: 0x6A, sampled: true, remote_parent: 0 }, TraceOpt { trace: 0x6B, sampled: true, remote_parent: 9 }];
+            // (a sampled and an unsampled trace: attachments made while an unsampled scope is open must
+            // still reach sampled targets; multi-parent targets across sampled traces are in C06-multi)
+            g.traces = vec![TraceOpt { trace: 0x6A, sampled: true, remote_parent: 0 }, TraceOpt { trace: 0x6B, sampled: false, remote_parent: 9 }];
+            g.any_trace_order = true;
             g.max_spans = if quick { 2 } else { 3 };
             g.max_parents = 2;
             g.allow_scope = true;
